@@ -1,6 +1,7 @@
 package main
 
 import (
+	"sync"
 	"encoding/json"
 	"flag"
 	"fmt"
@@ -26,6 +27,9 @@ type Item struct {
 	Script   string
 	ScriptQF string
 	ScriptSliced                []string
+	ScriptInst                  string
+	instAs                      []*Term // assumptions of the full script (the instantiated script is generated on demand)
+	instOnce                    sync.Once
 	ScriptLight, ScriptNoLocal string
 	Res      SolveResult
 	Status   string // discharged | known-finding | violation
@@ -159,6 +163,22 @@ func checkMain(args []string) int {
 					}
 				}
 			}
+			if !hasStrSort(o.Cond) {
+				// theory slice: a goal without strings, under the assumptions without strings
+				var ns []*Term
+				for _, a := range as {
+					if !hasStrSort(a) {
+						ns = append(ns, a)
+					}
+				}
+				if len(ns) < len(as) {
+					it.ScriptSliced = append(it.ScriptSliced, script(ns, o.Cond, nil))
+					sl := sliceAssumptions(ns, o.Cond, 1)
+					if len(sl) < len(ns) && len(sl) != prevN {
+						it.ScriptSliced = append(it.ScriptSliced, script(sl, o.Cond, nil))
+					}
+				}
+			}
 			if len(g.E.heavy) > 0 {
 				var light []*Term
 				dropped := 0
@@ -182,6 +202,7 @@ func checkMain(args []string) int {
 				as = append(append(append([]*Term{}, as...), g.WatchAssumes...), o.Local...)
 			}
 			it.Script = script(as, o.Cond, append(g.E.inputTerms(), g.WatchNames...))
+			it.instAs = as
 			// fallback query: the same goal under the quantifier-free assumptions only (fewer assumptions: an unsat
 			// answer is still a proof; it keeps arithmetic goals out of the solvers' quantifier mode)
 			nq := 0
@@ -217,6 +238,14 @@ func checkMain(args []string) int {
 				if it.Script != "" {
 					os.WriteFile(filepath.Join(*dump, sanitize(it.O.Name)+".smt2"), []byte(it.Script), 0644)
 				}
+				if os.Getenv("GOVC_DUMP_SLICES") != "" {
+					for k, sc := range it.ScriptSliced {
+						os.WriteFile(filepath.Join(*dump, fmt.Sprintf("%s.slice%d.smt2", sanitize(it.O.Name), k)), []byte(sc), 0644)
+					}
+					if sc := it.instScript(); sc != "" {
+						os.WriteFile(filepath.Join(*dump, sanitize(it.O.Name)+".inst.smt2"), []byte(sc), 0644)
+					}
+				}
 			}
 		}
 		fmt.Printf("%s generated units=%d obligations=%d explicit=%d\n", *prop, len(gens), len(items), explicit)
@@ -232,6 +261,14 @@ func checkMain(args []string) int {
 			r := solvePortfolio(sc, 3, seed)
 			if r.Verdict == "unsat" {
 				r.Solver += " (cone of influence)"
+				it.Res = r
+				return
+			}
+		}
+		if sc := it.instScript(); sc != "" {
+			r := solvePortfolio(sc, 3, seed)
+			if r.Verdict == "unsat" {
+				r.Solver += " (skolemised goal, ground instances added)"
 				it.Res = r
 				return
 			}
@@ -263,6 +300,18 @@ func checkMain(args []string) int {
 				if r2.Verdict == "unsat" {
 					r2.Secs += r.Secs
 					it.Res = r2
+				}
+			}
+		}
+		if it.Res.Verdict == "unknown" {
+			// the sliced scripts again (fewer assumptions: unsat is still a proof), with the full budget and other seeds
+			for _, sc := range it.ScriptSliced {
+				r := solvePortfolio(sc, secs, seed+3)
+				if r.Verdict == "unsat" {
+					r.Solver += " (cone of influence)"
+					r.Secs += it.Res.Secs
+					it.Res = r
+					break
 				}
 			}
 		}
@@ -423,6 +472,22 @@ func checkMain(args []string) int {
 		return 2
 	}
 	return 0
+}
+
+var termMu sync.Mutex
+
+// instScript: the instantiated script (inst.go), generated on first use. Term construction is not concurrent, so
+// generation during the parallel solving phase is serialised.
+func (it *Item) instScript() string {
+	it.instOnce.Do(func() {
+		if it.instAs == nil || it.G == nil || it.G.Spec == nil || it.G.Spec.Kind == "lemma" {
+			return
+		}
+		termMu.Lock()
+		defer termMu.Unlock()
+		it.ScriptInst = instantiatedScript(it.instAs, it.O.Cond)
+	})
+	return it.ScriptInst
 }
 
 func (w *World) genFuncUnit(us *UnitSpec) *GenUnit {
